@@ -1,12 +1,14 @@
 import MuduoVerif.Proofs.RpcLife
 import MuduoVerif.Proofs.RpcSkelTie
+import MuduoVerif.Proofs.RpcLock
 /-!
 # C19 — every RPC completes exactly once with the response that carries its own id
 
 Property theorems only (lemmas: `Proofs/Rpc.lean`, `RpcCall.lean`, `RpcResp.lean` - the state invariant
 `CallInv`; `RpcOnce.lean` - the trace invariant `TraceInv`; `RpcServe.lean` - the serving side `SrvInv`;
 `RpcLife.lean` - halting, done-callbacks, destructor, `RpcServer`; `RpcShape.lean` - closed forms of the
-REQUEST branch and the specification `expected` of the reply).
+REQUEST branch and the specification `expected` of the reply; `RpcLock.lean` - the machine with the mutex
+and chained calls of `Model/RpcLock.lean`: refinement, lock invariant; theorems in the last section).
 
 Quantification: `reach asserts hasServices acts` is the channel after **any** list `acts` of the model's
 atomic steps (`Model/Rpc.lean`): any number of `CallMethod` calls, each split into id fetch / insert under
@@ -526,5 +528,227 @@ example : ¬ ServiceDoneOnce true true (srvActs ++ [.fireDone 1]) ∧
   have := h srvActs 1 [] rfl
   revert this
   decide
+
+/-! ### the channel's mutex; completion closures that call back into their own channel (chained calls)
+
+`Model/RpcLock.lean`: the machine `LChan` = the channel of `Model/Rpc.lean` + `held` (the loop thread keeps `mutex_` beyond
+an atomic step - decided by the extracted lock scope of the RESPONSE branch) + the effect of a running closure (it may
+issue `CallMethod` on its own channel: `chainBegin` · `chainInsert` · `chainSend`, any number of times, while other
+threads' steps interleave) + the outcome `deadlocked`.  `lreach asserts hasServices acts` quantifies over **any** list of
+its steps. -/
+
+/-- the channel with its mutex after a history in which completion closures may call back into their channel -/
+abbrev lreach (asserts hasServices : Bool) (acts : List LAct) : LChan := lrun asserts hasServices acts
+
+section
+variable (asserts hs : Bool) (acts : List LAct)
+
+/-- **refinement**: whatever the closures do to their channel and however the mutex delays the other threads, the channel is
+in a state that `Model/Rpc.lean` reaches by some history of its own steps (a chained call's steps are call steps; a
+blocked or disabled step is no step) -/
+theorem locked_refines : ∃ base, (lreach asserts hs acts).ch = reach asserts hs base :=
+  lrun_refines asserts hs acts
+
+/-- ... hence every statement proved for all histories of `Model/Rpc.lean` - every theorem above - holds for all
+histories with chained calls -/
+theorem chained_histories_inherit (P : Chan → Prop) (h : ∀ base, P (reach asserts hs base)) :
+    P (lreach asserts hs acts).ch := by
+  obtain ⟨base, hb⟩ := locked_refines asserts hs acts
+  rw [hb]; exact h base
+
+/-- **closure_runs_unlocked** (T1: `respLookupUnderLock`, `respRunOutsideLock` are re-extracted from
+`RpcChannel::onRpcMessage` on every run; with a guard whose scope covers the completion the first conjunct - and with it
+`Proofs/RpcLock.lean` - does not compile): the lock scope of the RESPONSE branch ends before parse and `Run()`; in every
+reachable state the loop thread does not hold `mutex_` between two steps - in particular not while a completion closure
+runs (from the look-up that found the call to the closure's return) -; nothing is ever deadlocked -/
+theorem closure_runs_unlocked :
+    lockHeldIntoCompletion = false ∧
+    (lreach asserts hs acts).held = false ∧
+    (∀ k m, (lreach asserts hs acts).ch.pending = some (k, m) → (lreach asserts hs acts).held = false) ∧
+    (lreach asserts hs acts).deadlocked = false :=
+  ⟨lockHeldIntoCompletion_eq, (LockInv.run asserts hs acts).unlocked, fun _ _ _ => (LockInv.run asserts hs acts).unlocked,
+   (LockInv.run asserts hs acts).live⟩
+
+/-- **chained_call_registers**: the loop thread is running the closure of call `k` (it found `k` for the message `m` and has
+not finished it) and the closure is not inside `CallMethod` already.  The closure issues a call on its own channel
+(`chainOnce` = id fetch, insert under the lock, send).  Then: nothing deadlocks and the lock is free again; the new call is
+call number `nextCall`, recorded as chained by `k`; it got the id `counter + 1`, which no earlier call has; the ids of the
+earlier calls are untouched; it is registered: `outstandings_` maps its id to it and is otherwise unchanged; its REQUEST
+frame left (the only new event); the completion of `k` is still in progress, with the same message; the new call's closure
+has not run -/
+theorem chained_call_registers (k : Nat) (m : Msg)
+    (hp : (lreach asserts hs acts).ch.pending = some (k, m)) (hc : (lreach asserts hs acts).chain = none) :
+    (lreach asserts hs (acts ++ chainOnce)).deadlocked = false ∧
+    (lreach asserts hs (acts ++ chainOnce)).held = false ∧
+    (lreach asserts hs (acts ++ chainOnce)).chain = none ∧
+    (lreach asserts hs (acts ++ chainOnce)).chained =
+      ((lreach asserts hs acts).ch.nextCall, k) :: (lreach asserts hs acts).chained ∧
+    (lreach asserts hs (acts ++ chainOnce)).ch.nextCall = (lreach asserts hs acts).ch.nextCall + 1 ∧
+    (lreach asserts hs (acts ++ chainOnce)).ch.idOf (lreach asserts hs acts).ch.nextCall = (lreach asserts hs acts).ch.counter + 1 ∧
+    (∀ j, j < (lreach asserts hs acts).ch.nextCall →
+      (lreach asserts hs (acts ++ chainOnce)).ch.idOf j = (lreach asserts hs acts).ch.idOf j ∧
+      (lreach asserts hs acts).ch.idOf j ≠ (lreach asserts hs acts).ch.counter + 1) ∧
+    Registered (lreach asserts hs (acts ++ chainOnce)).ch (lreach asserts hs acts).ch.nextCall ∧
+    (∀ i, lookup i (lreach asserts hs (acts ++ chainOnce)).ch.outstanding =
+      if i = (lreach asserts hs acts).ch.counter + 1 then some (lreach asserts hs acts).ch.nextCall
+      else lookup i (lreach asserts hs acts).ch.outstanding) ∧
+    (lreach asserts hs (acts ++ chainOnce)).ch.log =
+      Ev.sent ((lreach asserts hs acts).ch.counter + 1) (lreach asserts hs acts).ch.nextCall :: (lreach asserts hs acts).ch.log ∧
+    (lreach asserts hs (acts ++ chainOnce)).ch.pending = some (k, m) ∧
+    ranCount (lreach asserts hs acts).ch.nextCall (lreach asserts hs (acts ++ chainOnce)).ch.log = 0 := by
+  have hl := LockInv.run asserts hs acts
+  obtain ⟨base, hb⟩ := locked_refines asserts hs acts
+  have inv : CallInv (lreach asserts hs acts).ch := by rw [hb]; exact CallInv.run asserts hs base
+  have hh : (lreach asserts hs acts).ch.halted = false := by rw [hb]; exact (never_halts asserts hs base).1
+  have happ : lreach asserts hs (acts ++ chainOnce) = chainOnce.foldl lstep (lreach asserts hs acts) := by
+    simp [lreach, lrun, List.foldl_append]
+  rw [happ]
+  simp only [lreach] at *
+  generalize lrun asserts hs acts = s at *
+  rw [chainOnce_eq hl.live hh hl.unlocked hp hc]
+  have hborn := inv.born s.ch.nextCall (Nat.le_refl _)
+  have hfr := inv.fresh s.ch.nextCall (by simp [Registered, hborn])
+  refine ⟨hl.live, hl.unlocked, rfl, rfl, rfl, by simp [setAt_same], ?_, ?_, ?_, rfl, hp, ?_⟩
+  · intro j hj
+    have := inv.idpos j hj
+    refine ⟨by simp [setAt, Nat.ne_of_lt hj], by omega⟩
+  · right; simp [setAt_same]
+  · intro i
+    simp only [lookup_insertKey]
+    by_cases h : i = s.ch.counter + 1
+    · simp [h]
+    · have : ¬ s.ch.counter + 1 = i := fun h' => h h'.symm
+      simp [h, this]
+  · show ranCount s.ch.nextCall (Ev.sent _ _ :: s.ch.log) = 0
+    rw [ranCount_cons_foreign _ _ _ rfl]; exact hfr.1
+
+
+/-- **chained histories**: `ids_unique`, `complete_at_most_once`, `complete_with_own_response`, `complete_once`,
+`no_double_free_no_use_after_free` and `outstanding_exact` for every history in which closures call back into their channel
+(the chained calls are calls like any other: they get ids of their own, complete once, with their own response) -/
+theorem chained_histories :
+    ((∀ j k, j < (lreach asserts hs acts).ch.nextCall → k < (lreach asserts hs acts).ch.nextCall → j ≠ k →
+        (lreach asserts hs acts).ch.idOf j ≠ (lreach asserts hs acts).ch.idOf k) ∧
+      (∀ i j k, Ev.sent i j ∈ (lreach asserts hs acts).ch.log → Ev.sent i k ∈ (lreach asserts hs acts).ch.log → j = k) ∧
+      (∀ k, sentCount k (lreach asserts hs acts).ch.log ≤ 1)) ∧
+    (∀ k, ranCount k (lreach asserts hs acts).ch.log ≤ 1) ∧
+    (∀ post pre k i v, (lreach asserts hs acts).ch.log = post ++ Ev.ran k i v :: pre →
+      i = (lreach asserts hs acts).ch.idOf k ∧
+      ∃ m mid pre', pre = mid ++ Ev.arrived m :: pre' ∧ m.type = .RESPONSE ∧ m.id = i ∧
+        v = m.payload.bind Body.parse ∧ ∀ e ∈ mid, e.isArrived = false) ∧
+    (∀ post pre m k, (lreach asserts hs acts).ch.log = post ++ Ev.arrived m :: pre → m.type = .RESPONSE →
+      Ev.sent m.id k ∈ pre →
+      (ranCount k (lreach asserts hs acts).ch.log = 1 ∨ ∃ m', (lreach asserts hs acts).ch.pending = some (k, m')) ∧
+      (ranCount k pre = 0 →
+        (Ev.ran k m.id (m.payload.bind Body.parse) ∈ post ∧ ranCount k (lreach asserts hs acts).ch.log = 1) ∨
+        (lreach asserts hs acts).ch.pending = some (k, m))) ∧
+    ((∀ k, freeCount k (lreach asserts hs acts).ch.log = ranCount k (lreach asserts hs acts).ch.log) ∧
+      (∀ c, Ev.uaf c ∈ (lreach asserts hs acts).ch.log → ∃ r, c = .closure r)) ∧
+    ((∀ i k, lookup i (lreach asserts hs acts).ch.outstanding = some k ↔
+        ((lreach asserts hs acts).ch.idOf k = i ∧ Registered (lreach asserts hs acts).ch k ∧
+         ranCount k (lreach asserts hs acts).ch.log = 0 ∧ ∀ m, (lreach asserts hs acts).ch.pending ≠ some (k, m))) ∧
+      ((lreach asserts hs acts).ch.outstanding.map Prod.fst).Nodup) := by
+  refine chained_histories_inherit asserts hs acts (fun c =>
+    ((∀ j k, j < c.nextCall → k < c.nextCall → j ≠ k → c.idOf j ≠ c.idOf k) ∧
+      (∀ i j k, Ev.sent i j ∈ c.log → Ev.sent i k ∈ c.log → j = k) ∧ (∀ k, sentCount k c.log ≤ 1)) ∧
+    (∀ k, ranCount k c.log ≤ 1) ∧
+    (∀ post pre k i v, c.log = post ++ Ev.ran k i v :: pre → i = c.idOf k ∧
+      ∃ m mid pre', pre = mid ++ Ev.arrived m :: pre' ∧ m.type = .RESPONSE ∧ m.id = i ∧
+        v = m.payload.bind Body.parse ∧ ∀ e ∈ mid, e.isArrived = false) ∧
+    (∀ post pre m k, c.log = post ++ Ev.arrived m :: pre → m.type = .RESPONSE → Ev.sent m.id k ∈ pre →
+      (ranCount k c.log = 1 ∨ ∃ m', c.pending = some (k, m')) ∧
+      (ranCount k pre = 0 →
+        (Ev.ran k m.id (m.payload.bind Body.parse) ∈ post ∧ ranCount k c.log = 1) ∨ c.pending = some (k, m))) ∧
+    ((∀ k, freeCount k c.log = ranCount k c.log) ∧ (∀ c', Ev.uaf c' ∈ c.log → ∃ r, c' = .closure r)) ∧
+    ((∀ i k, lookup i c.outstanding = some k ↔
+        (c.idOf k = i ∧ Registered c k ∧ ranCount k c.log = 0 ∧ ∀ m, c.pending ≠ some (k, m))) ∧
+      (c.outstanding.map Prod.fst).Nodup)) ?_
+  intro base
+  have hu := ids_unique asserts hs base
+  have hf := no_double_free_no_use_after_free asserts hs base
+  have ho := outstanding_exact asserts hs base
+  exact ⟨⟨hu.1, hu.2.2.2.1, hu.2.2.2.2⟩, complete_at_most_once asserts hs base,
+    fun post pre k i v h => complete_with_own_response asserts hs base post pre k i v h,
+    fun post pre m k h ht hs' => complete_once asserts hs base post pre m k h ht hs',
+    ⟨hf.2.1, hf.2.2.2⟩, ⟨ho.1, ho.2.1⟩⟩
+
+/-- `response_completes` for the machine with the mutex: a RESPONSE for a registered call that has not completed - a
+chained one (`chained_call_registers` puts it into this state) or any other - handled by an idle loop thread runs exactly
+that call's closure once, with the message's payload, and leaves the lock free -/
+theorem chained_call_completes (m : Msg) (k : Nat) (ht : m.type = .RESPONSE)
+    (hp : (lreach asserts hs acts).ch.pending = none) (hc : (lreach asserts hs acts).chain = none)
+    (hk : Registered (lreach asserts hs acts).ch k) (hid : (lreach asserts hs acts).ch.idOf k = m.id)
+    (hr : ranCount k (lreach asserts hs acts).ch.log = 0) :
+    (lreach asserts hs (acts ++ [.base (.recv m), .base .finish])).ch.log =
+      Ev.free (.resp k) :: Ev.ran k m.id (m.payload.bind Body.parse) ::
+        ((if m.payload.isSome then [Ev.parse k] else []) ++ Ev.arrived m :: (lreach asserts hs acts).ch.log) ∧
+    (lreach asserts hs (acts ++ [.base (.recv m), .base .finish])).ch.outstanding =
+      eraseKey m.id (lreach asserts hs acts).ch.outstanding ∧
+    (lreach asserts hs (acts ++ [.base (.recv m), .base .finish])).ch.pending = none ∧
+    (∀ j, ranCount j (lreach asserts hs (acts ++ [.base (.recv m), .base .finish])).ch.log =
+      (if j = k then 1 else 0) + ranCount j (lreach asserts hs acts).ch.log) ∧
+    (lreach asserts hs (acts ++ [.base (.recv m), .base .finish])).held = false ∧
+    (lreach asserts hs (acts ++ [.base (.recv m), .base .finish])).deadlocked = false := by
+  have hl := LockInv.run asserts hs acts
+  have hl' := LockInv.run asserts hs (acts ++ [.base (.recv m), .base .finish])
+  obtain ⟨base, hb⟩ := locked_refines asserts hs acts
+  have happ : lreach asserts hs (acts ++ [.base (.recv m), .base .finish]) =
+      lstep (lstep (lreach asserts hs acts) (.base (.recv m))) (.base .finish) := by
+    simp [lreach, lrun, List.foldl_append]
+  have hch := (lstep_recv_finish (lreach asserts hs acts) m hl.live hp hc).1
+  have hbase : reach asserts hs (base ++ [.recv m, .finish]) = step (step (reach asserts hs base) (.recv m)) .finish := by
+    simp [reach, run, List.foldl_append]
+  rw [hb] at hp hk hid hr
+  obtain ⟨a, b, c, d, _⟩ := response_completes asserts hs base m k ht hp hk hid hr
+  rw [happ, hch, hb, ← hbase]
+  refine ⟨a, b, c, d, ?_, ?_⟩
+  · rw [← happ]; exact hl'.unlocked
+  · rw [← happ]; exact hl'.live
+
+end
+
+/-- the **deadlock outcome**: had the loop thread kept `mutex_` into the completion (`held`), the `CallMethod` that a closure
+issues on its own channel would block at its `MutexLockGuard` for ever: the machine is `deadlocked`, the chained call is
+never registered, and whatever is attempted afterwards (`acts`) changes nothing - no closure of any call still outstanding
+ever runs.  (`closure_runs_unlocked`: with the lock scopes of the source this state is not reachable.) -/
+theorem reentry_under_lock_deadlocks (s : LChan) (k' : Nat) (hd : s.deadlocked = false) (hh : s.ch.halted = false)
+    (hu : s.held = true) (hc : s.chain = some k') (hst : atInsert s.ch k' = true) (acts : List LAct) :
+    (acts.foldl lstep (lstep s .chainInsert)).deadlocked = true ∧
+    (acts.foldl lstep (lstep s .chainInsert)).ch = s.ch ∧
+    ¬ Registered s.ch k' := by
+  rw [chainInsert_deadlocks hd hh hu hc hst, lfoldl_deadlocked acts _ rfl]
+  refine ⟨rfl, rfl, ?_⟩
+  simp only [atInsert, insertBeforeSend_eq, if_true, decide_eq_true_eq] at hst
+  simp [Registered, hst]
+
+/-! ### chained calls: the statements are not vacuous -/
+
+/-- a chain of depth 2: call 0 (id 1); its closure, run for an answer with payload 5, issues call 1 (id 2); the closure
+of call 1, run for an error reply, issues call 2 (id 3); call 2 is answered with payload 7 -/
+def chainActs : List LAct :=
+  [.base .callBegin, .base (.callInsert 0), .base (.callSend 0),
+   .base (.recv { type := .RESPONSE, id := 1, payload := some (.ok 5) })] ++ chainOnce ++ [.base .finish,
+   .base (.recv { type := .RESPONSE, id := 2, err := some 3 })] ++ chainOnce ++ [.base .finish,
+   .base (.recv { type := .RESPONSE, id := 3, payload := some (.ok 7) }), .base .finish]
+
+example : (lreach true false chainActs).chained = [(2, 1), (1, 0)] ∧
+    (lreach true false chainActs).deadlocked = false ∧ (lreach true false chainActs).held = false ∧
+    (lreach true false chainActs).ch.outstanding = [] ∧
+    (lreach true false chainActs).ch.log =
+      [.free (.resp 2), .ran 2 3 (some 7), .parse 2, .arrived { type := .RESPONSE, id := 3, payload := some (.ok 7) },
+       .free (.resp 1), .ran 1 2 none, .sent 3 2, .arrived { type := .RESPONSE, id := 2, err := some 3 },
+       .free (.resp 0), .ran 0 1 (some 5), .parse 0, .sent 2 1, .arrived { type := .RESPONSE, id := 1, payload := some (.ok 5) },
+       .sent 1 0] := by
+  decide
+
+/-- the hypotheses of `chained_call_registers` hold while the first closure runs -/
+example : (lreach true false (chainActs.take 4)).ch.pending = some (0, { type := .RESPONSE, id := 1, payload := some (.ok 5) }) ∧
+    (lreach true false (chainActs.take 4)).chain = none := by
+  decide
+
+/-- the state that `reentry_under_lock_deadlocks` speaks about: the same history, had the lock been kept -/
+example : ∃ s : LChan, s.deadlocked = false ∧ s.ch.halted = false ∧ s.held = true ∧ s.chain = some 1 ∧ atInsert s.ch 1 = true ∧
+    ranCount 0 s.ch.log = 0 :=
+  ⟨{ lreach true false (chainActs.take 5) with held := true }, by decide⟩
 
 end MuduoVerif.C19
